@@ -16,8 +16,9 @@ import sys
 import tempfile
 import time
 import numpy as np
+from .common import patched as common_patched
 
-MODULES = []
+MODULES = ['dassh.reactor', 'dassh.region_rodded', 'dassh.material']
 PROPERTY = 'C16'
 FUNCTIONS = ['dassh.reactor:Reactor.__init__ and every function reachable from it with an input-derived argument '
              '(frame contract readonly(dassh_input.data); list in the evidence)',
@@ -39,8 +40,165 @@ ENTRY = [('dassh.reactor:Reactor.__init__', ['dassh_input'], 'shell'),
          ('dassh.hotspot:_setup_postprocess', ['dassh_inp'], 'shell')]
 
 
+DUMP_FILE = {'coolant_int': 'temp_coolant_int.csv', 'coolant_byp': 'temp_coolant_byp.csv',
+             'duct_mw': 'temp_duct_mw.csv', 'coolant_gap': 'temp_coolant_gap.csv',
+             'coolant_gap_fine': 'temp_coolant_gap_fine.csv', 'pin': 'temp_pin.csv',
+             'average': 'temp_average.csv', 'maximum': 'temp_maximum.csv', 'pressure_drop': 'pressure_drop.csv'}
+DUMP_FLAGS = ['coolant', 'duct', 'gap', 'gap_fine', 'pins', 'average', 'maximum', 'pressure_drop']
+
+
+def dump_files_fresh(S, cfg):
+    """ghost file system around the real Reactor._data_setup / _data_open: whatever files a previous execution
+    left in the output directory (one unconstrained boolean per file), every file the sweep then opens in APPEND
+    mode is absent when set-up returns - so an execution's dump files hold that execution's rows only - and
+    nothing else in the directory is removed; the files opened are exactly those set up."""
+    from dassh import reactor
+    flags = cfg['flags']
+    root = '/ghost/out'
+
+    class GhostFS:
+        def __init__(self):
+            self.initial, self.removed, self.opened = {}, [], []
+
+        def exists(self, p):
+            if p in self.removed:
+                return False
+            if p not in self.initial:
+                self.initial[p] = S.int('exists:' + os.path.basename(p), 0, 1) == 1
+            return self.initial[p]
+
+        def remove(self, p):
+            if not self.exists(p):
+                raise FileNotFoundError(p)
+            self.removed.append(p)
+
+        def open(self, p, mode='r'):
+            self.opened.append((p, mode))
+            return None
+    fs = GhostFS()
+
+    class _Path:
+        join = staticmethod(os.path.join)
+        exists = staticmethod(fs.exists)
+
+    class _Os:
+        path = _Path
+        remove = staticmethod(fs.remove)
+
+    class Rodded:
+        n_bypass = 1 if cfg.get('bypass') else 0
+
+        class subchannel:
+            n_sc = {'coolant': {'total': 42}, 'duct': {'total': 18}, 'bypass': {'total': 18}}
+
+    class Asm:
+        has_rodded = True
+        rodded = Rodded
+
+        def setup_data_io(self, cols):
+            self.cols = dict(cols)
+    r = reactor.Reactor.__new__(reactor.Reactor)
+    r.path = root
+    r.assemblies = [Asm(), Asm()]
+    r.log = lambda *a, **k: None
+    r._options = {'dump': dict({k: (k in flags) for k in DUMP_FLAGS}, any=bool(flags), interval=None)}
+    with common_patched((reactor, 'os', _Os), (reactor, 'open', fs.open)):
+        r._data_setup()
+        r._data_open()
+    want = []
+    if 'coolant' in flags:
+        want.append('coolant_int')
+        if cfg.get('bypass'):
+            want.append('coolant_byp')
+    want += [{'duct': 'duct_mw', 'gap': 'coolant_gap', 'gap_fine': 'coolant_gap_fine', 'pins': 'pin'}.get(k, k)
+             for k in DUMP_FLAGS[1:] if k in flags]
+    names = r._options['dump'].get('names', [])
+    S.holds('dump.names', sorted(names) == sorted(want))
+    paths = r._options['dump'].get('paths', {})
+    for nm in want:
+        p = os.path.join(root, DUMP_FILE[nm])
+        S.holds(f'dump.path[{nm}]', paths.get(nm) == p)
+        S.holds(f'dump.absent_before_append[{nm}]', not fs.exists(p))
+        S.holds(f'dump.opened_for_append[{nm}]', (p, 'ab') in fs.opened)
+    S.holds('dump.opens_only_what_was_set_up', sorted(p for p, _ in fs.opened) == sorted(paths.values()))
+    S.holds('dump.removes_only_dump_files', set(fs.removed) <= {os.path.join(root, DUMP_FILE[nm]) for nm in want})
+    if want:
+        S.holds('canary.dump_nothing_removed', len(fs.removed) == 0, canary=True)
+
+
+dump_files_fresh.cname = 'Reactor._data_setup+_data_open/ghost-fs'
+dump_files_fresh.run_kw = dict(check_div=False, max_paths=600)
+
+
+def tracker_reference(S, cfg):
+    """RoddedRegion._update_coolant_int_params + material._MatTracker: the reference state of the property tracker is
+    the coolant state at which the correlated parameters were last calculated - after a forced recalculation
+    (use_mat_tracker=False) it is the present state, whatever state the (shared, cloned) material had when the
+    region was built; with the tracker on, the parameters are recalculated exactly when some property moved by
+    more than the tolerance from that reference, and the reference then moves with them."""
+    from dassh import region_rodded, material
+    forced = cfg['forced']
+    tol = S.pos('tol', 0.01, 0.2)
+    props = ('viscosity', 'density', 'heat_capacity', 'thermal_conductivity')
+
+    class Mat:
+        pass
+    stale = Mat()
+    for k in props:
+        setattr(stale, k, S.pos('stale_' + k, 0.5, 2.0))
+    new = {k: S.pos('new_' + k, 0.5, 2.0) for k in props}
+
+    class Stop(Exception):
+        pass
+
+    class Region:
+        def __init__(self):
+            self.coolant = Mat()
+            self._coolant_tracker = material._MatTracker(stale, tol)
+
+        def _update_coolant(self, temp):
+            for k in props:
+                setattr(self.coolant, k, new[k])
+
+        @property
+        def int_flow_rate(self):          # first thing the recalculation reads
+            raise Stop()
+    r = Region()
+    recalculated = False
+    try:
+        region_rodded.RoddedRegion._update_coolant_int_params(r, S.pos('T', 600.0, 900.0), use_mat_tracker=not forced)
+    except Stop:
+        recalculated = True
+    ref = r._coolant_tracker._dat0
+    moved = False
+    if not forced:
+        for k in props:
+            if abs(new[k] - getattr(stale, k)) / getattr(stale, k) > tol:
+                moved = True
+    if forced:
+        S.holds('tracker.forced_recalculates', recalculated)
+    else:
+        S.holds('tracker.recalculates_iff_moved_beyond_tol', recalculated == moved)
+    if recalculated:
+        for i, k in enumerate(props):
+            S.eq(f'tracker.reference_is_state_of_last_calculation[{k}]', ref[i], new[k])
+        S.holds('tracker.flag_cleared', r._coolant_tracker.recalculate_params is False)
+    else:
+        for i, k in enumerate(props):
+            S.eq(f'tracker.reference_kept[{k}]', ref[i], getattr(stale, k))
+    S.eq('canary.tracker_reference_is_construction_state', ref[0], stale.viscosity, canary=True)
+
+
+tracker_reference.cname = 'RoddedRegion._update_coolant_int_params/tracker'
+tracker_reference.run_kw = dict(check_div=False, max_paths=400)
+
+
 def configs(tier):
-    return []
+    out = [(dump_files_fresh, dict(flags=[k], bypass=True)) for k in DUMP_FLAGS]
+    out.append((dump_files_fresh, dict(flags=list(DUMP_FLAGS), bypass=True)))
+    out.append((dump_files_fresh, dict(flags=['coolant', 'pressure_drop'], bypass=False)))
+    out += [(tracker_reference, dict(forced=True)), (tracker_reference, dict(forced=False))]
+    return out
 
 
 def _repo():
@@ -85,6 +243,11 @@ def static_frames():
 
 VARIANTS = {
     'single': dict(),
+    # temperature-dependent coolant + parameter-update tolerance: the tracker state must not depend on the history
+    # of the input's shared material object
+    'tracker_sodium': dict(coolant='sodium', setup_extra='    param_update_tol = 0.02\n'),
+    'tracker_sodium_unrodded': dict(coolant='sodium', setup_extra='    param_update_tol = 0.02\n',
+                                    asms={'a1': dict(unrodded=[('lower', 0.0, 0.3, 'simple'), ('upper', 0.8, 1.0, '6node')])}),
     'dump_all': dict(setup_extra='    [[Dump]]\n        all = True\n'),
     'fuel_model': dict(asms={'a1': dict(pin_model='fuel')}),
     'pin_model': dict(asms={'a1': dict(pin_model='pin')}),
